@@ -272,15 +272,12 @@ theorem expire_age (ops : BucketOps β) (p : Params) (i ex : Nat) (l : List (β 
   · rename_i rest b heq
     obtain ⟨pre, c, post, rfl, rfl, hge, hpre⟩ := expireOne_some heq
     intro bc hbc
-    simp only
     have hc := hage (b, c) (by simp)
-    simp only at hc
     rw [List.pairwise_append] at hsorted
     obtain ⟨-, hpost, hcross⟩ := hsorted
     rcases List.mem_append.1 hbc with h | h
     · have := hpre bc h; omega
     · have := (List.pairwise_cons.1 hpost).1 bc h
-      simp only at this
       omega
   · rename_i heq
     intro bc hbc
@@ -631,6 +628,33 @@ theorem inv_reached {ops : BucketOps β} (law : Lawful ops) {Q : β → Prop} (c
     Inv ops p Q (runAux ops p init input).2 ∧ (runAux ops p init input).2.i = input.length := by
   obtain ⟨invf, hi, -, -⟩ := runAux_spec law cl p input init (inv_init ops p Q)
   exact ⟨invf, by simpa [init] using hi⟩
+
+/-! ### reachable states -/
+
+/-- the states the loop can be in between two passes -/
+inductive Reachable (ops : BucketOps β) (p : Params) : St β → Prop
+  | init : Reachable ops p init
+  | step {s : St β} (e : Ex) : Reachable ops p s → Reachable ops p (step ops p s e).1
+
+theorem reachable_runAux (ops : BucketOps β) (p : Params) :
+    ∀ (input : List Ex) (s : St β), Reachable ops p s → Reachable ops p (runAux ops p s input).2
+  | [], _, h => h
+  | e :: es, _, h => reachable_runAux ops p es _ (Reachable.step e h)
+
+/-- the reachable states are exactly the final states of `runAux` from `init` on some input, so a
+    statement about `(runAux ops p init input).2` for every `input` is a statement about every
+    reachable state -/
+theorem reachable_iff (ops : BucketOps β) (p : Params) (s : St β) :
+    Reachable ops p s ↔ ∃ input, (runAux ops p init input).2 = s := by
+  constructor
+  · intro h
+    induction h with
+    | init => exact ⟨[], rfl⟩
+    | step e _ ih =>
+      obtain ⟨input, rfl⟩ := ih
+      exact ⟨input ++ [e], by rw [runAux_append]; rfl⟩
+  · rintro ⟨input, rfl⟩
+    exact reachable_runAux ops p input init Reachable.init
 
 /-! ### the time-series bucket -/
 
